@@ -16,8 +16,7 @@ RULE = ('exhaustive boolean space role(server, client) x marker(own, other role\
         'oracle = 10-line model of the published rule over (flagged set, advisory names, additions recommended); a case is non-trivial when the audit completed and the flagged set was compared; '
         'distinct = distinct (combination, instantiation, rendering)')
 REQUIRED = {'audits_completed': 100, 'flagged_sets_compared': 100, 'expected_exposed': 20, 'expected_advisory': 20, 'client_role': 20}
-ASSUMPTIONS = ['shapes are the published ones: prefix chacha20-poly1305; suffixes -cbc, -cbc@openssh.org, -cbc@ssh.com, rijndael-cbc@lysator.liu.se; suffix -etm@openssh.com',
-               'client role is audited with identical client-to-server and server-to-client lists (what real clients send)',
+ASSUMPTIONS = ['with different lists per direction the peer\'s own sending direction decides (client-to-server lists of a client, server-to-client lists of a server); the report can only show warnings on the names it displays (server-to-client lists)', 'shapes are the published ones: prefix chacha20-poly1305; suffixes -cbc, -cbc@openssh.org, -cbc@ssh.com, rijndael-cbc@lysator.liu.se; suffix -etm@openssh.com',
                '"carries the Terrapin warning" = a warning- or failure-level note naming CVE-2023-48795 (the strict-kex pseudo algorithm\'s informational text is not a warning)']
 MANIFEST = {
     'text': 'Exploration, exhaustive over the 144-combination boolean space of the published rule (every combination is executed as a real audit in text and JSON); name instantiation is sampled in quick and complete over database names in thorough.',
@@ -58,6 +57,11 @@ def cases(tier, seed):
                 for nch, ncb in ((0, 0), (0, 1), (1, 2), (1, 0)):
                     others = rng.sample([x for x in etm if x != n], rng.randint(0, 1))
                     cs.append({'kind': 'combo', 'role': role, 'marker': marker, 'cha': rng.sample(cha, nch), 'cbc': rng.sample(cbc, ncb), 'etm': [n] + others, 'render': rng.choice(['text', 'json']), 'seed': rng.randrange(1 << 30)})
+    # asymmetric direction lists: the peer's own sending direction decides (client-to-server lists for clients, server-to-client lists for servers)
+    for role, marker in itertools.product(['server', 'client'], ['own', 'none']):
+        for pat in ('etm_cs_only', 'etm_sc_only', 'cbc_cs_only', 'cbc_sc_only', 'cha_cs_only', 'cha_sc_only'):
+            for rnd in (('text', 'json') if tier == 'thorough' else ('text',)):
+                cs.append({'kind': 'asym', 'role': role, 'marker': marker, 'pattern': pat, 'cha': rng.sample(cha, 1), 'cbc': rng.sample(cbc, 1), 'etm': rng.sample(etm, 1), 'render': rnd, 'seed': rng.randrange(1 << 30)})
     # unknown names of the same shapes
     unk = [('cha', 'chacha20-poly1305@example.org'), ('cbc', 'zzfoo256-cbc'), ('cbc', 'zzbar-cbc@ssh.com'), ('etm', 'zz-hmac-sha3-etm@openssh.com')]
     for role, marker in itertools.product(['server', 'client'], ['own', 'none']):
@@ -101,6 +105,27 @@ def run_case(c):
     rng.shuffle(mac)
     banner = 'SSH-2.0-OpenSSH_9.%d' % rng.randint(0, 9)
     script = {'banner': banner, 'kex': audit.sym_kex(kex, ['ssh-ed25519'], enc, mac), 'hostkeys': {'ssh-ed25519': {'type': 'ed25519'}}, 'gex': None}
+    asym_V = None
+    if c['kind'] == 'asym':
+        pat = c['pattern']
+        shape, side = pat.split('_')[0], pat.split('_')[1]
+        own_dir = 'cs' if client else 'sc'
+        lists = {'enc_cs': list(fill_enc), 'enc_sc': list(fill_enc), 'mac_cs': list(fill_mac), 'mac_sc': list(fill_mac)}
+        # the partner shape (CBC needs ETM and vice versa) is offered in both directions; the shape under test only on one side
+        if shape == 'etm':
+            lists['enc_cs'] += c['cbc']; lists['enc_sc'] += c['cbc']; lists['mac_' + side] += c['etm']
+        elif shape == 'cbc':
+            lists['mac_cs'] += c['etm']; lists['mac_sc'] += c['etm']; lists['enc_' + side] += c['cbc']
+        else:
+            lists['enc_' + side] += c['cha']
+        k2 = audit.sym_kex(kex, ['ssh-ed25519'], lists['enc_sc'], lists['mac_sc'], enc_cs=lists['enc_cs'], mac_cs=lists['mac_cs'])
+        script['kex'] = k2
+        own_enc, own_mac = lists['enc_' + own_dir], lists['mac_' + own_dir]
+        v_cha = [n for n in own_enc if n.startswith('chacha20-poly1305')]
+        v_cbc = [n for n in own_enc if is_shape(n) and not n.startswith('chacha20')]
+        v_etm = [n for n in own_mac if n.endswith('-etm@openssh.com')]
+        asym_V = set(v_cha) | ((set(v_cbc) | set(v_etm)) if v_cbc and v_etm else set())
+        enc, mac = lists['enc_sc'], lists['mac_sc']   # what the report displays
     args = ['-j'] if c['render'] == 'json' else ['-n']
     if client:
         r, p = audit.audit_client(script, args)
@@ -110,6 +135,10 @@ def run_case(c):
         r, p = audit.audit_server(script, args)
     marker_present = c['marker'] in ('own', 'both')
     V = set(c['cha']) | ((set(c['cbc']) | set(c['etm'])) if c['cbc'] and c['etm'] else set())
+    V_adv = V
+    if asym_V is not None:
+        V_adv = asym_V                              # the advisory names everything exposed in the peer's own direction
+        V = asym_V & (set(enc) | set(mac))          # warnings can only be seen on names the report displays
     viol = []
     counters = {'client_role': 1 if client else 0}
     if r.status not in (0, 2, 3):
@@ -140,15 +169,15 @@ def run_case(c):
         if m:
             adv_names |= set(m.group(1).split(', '))
     counters['flagged_sets_compared'] = 1
-    combo = 'marker=%s,cha=%d,cbc=%d,etm=%d' % ('y' if marker_present else 'n', len(c['cha']), min(len(c['cbc']), 2), min(len(c['etm']), 2))
+    combo = 'marker=%s,cha=%d,cbc=%d,etm=%d' % ('y' if marker_present else 'n', len(c['cha']), min(len(c['cbc']), 2), min(len(c['etm']), 2)) + ((',asym=' + c['pattern']) if asym_V is not None else '')
     unknown = c.get('unknown')
     if marker_present:
         counters['expected_advisory'] = 1 if V else 0
         if flagged:
             viol.append(_v('C04/flagged-despite-marker:' + c['role'], 'algorithms carry the Terrapin warning although the strict-kex marker for this role is present', flagged=sorted(flagged), combo=combo))
-        if V and adv_names != V:
-            viol.append(_v('C04/advisory-wrong:' + c['role'] + (':unknown-shape' if (unknown and (adv_names ^ V) == {unknown}) else ''), 'advisory note does not name exactly the exposed algorithms', got=sorted(adv_names), want=sorted(V), combo=combo))
-        if not V and adv:
+        if V_adv and adv_names != V_adv:
+            viol.append(_v('C04/advisory-wrong:' + c['role'] + (':unknown-shape' if (unknown and (adv_names ^ V) == {unknown}) else ''), 'advisory note does not name exactly the exposed algorithms', got=sorted(adv_names), want=sorted(V_adv), combo=combo))
+        if not V_adv and adv:
             viol.append(_v('C04/advisory-spurious:' + c['role'], 'advisory note although nothing is exposed', got=adv[:1], combo=combo))
     else:
         counters['expected_exposed'] = 1 if V else 0
@@ -156,7 +185,7 @@ def run_case(c):
             miss, extra = V - flagged, flagged - V
             k = 'missing' if miss else 'extra'
             which = 'unknown-shape' if (unknown and miss == {unknown} and not extra) else ('cha' if (miss | extra) & set(c['cha']) else 'cbc' if (miss | extra) & set(c['cbc']) else 'etm' if (miss | extra) & set(c['etm']) else 'other')
-            viol.append(_v('C04/flagged-%s:%s:%s' % (k, c['role'], which), 'the set of algorithms carrying the Terrapin warning differs from the published rule', got=sorted(flagged), want=sorted(V), combo=combo, marker=c['marker']))
+            viol.append(_v('C04/flagged-%s:%s:%s' % (k, c['role'], which + (':asymmetric-lists' if asym_V is not None else '')), 'the set of algorithms carrying the Terrapin warning differs from the published rule', got=sorted(flagged), want=sorted(V), combo=combo, marker=c['marker']))
         if adv:
             viol.append(_v('C04/advisory-without-marker:' + c['role'], 'advisory note although the marker is absent', combo=combo))
     if flagged_cats - {'enc', 'mac'}:
